@@ -8,5 +8,6 @@ for id in $ids; do
   start=$(date +%s)
   ./check $id --tier $tier > runall-$id.log 2>&1; rc=$?
   echo "$id rc=$rc $(( $(date +%s) - start ))s $(grep -E '^(VIOLATION|TROUBLE|INCONCLUSIVE)' runall-$id.log | head -3 | tr '\n' ' ') $(tail -1 runall-$id.log | cut -c1-160)"
+  [ -n "$VERIF_DEBUG" ] && grep -E '^DEBUG' runall-$id.log | cut -c1-220
   if [ "$tier" = thorough ]; then mkdir -p evidence-thorough; cp evidence/$id.json evidence-thorough/$id.json; fi
 done
